@@ -17,7 +17,7 @@ NOVAL = '$NO_VALUE'
 
 KEY_POOL = ['key', 'Key', 'key ', '', ' ', 'a/b', '../x', 'k\x00z', 'café', 'café', 'Å', 'Å', 'Å', 'x' * 300,
             '{"a": 1}', 'k1', 'k2', 'ключ', '键', '\U0001F600', 'a\nb', 'None', '0', 'null']
-SUBS = ['a', 'b', 'x.y', 'deep']
+SUBS = ['a', 'b', 'x.y', 'deep', 'v1 beta', 'v1_beta', 'a b', 'a_b', 'r+d', 'r_d']
 
 
 def _values_for(ctype, r):
@@ -41,6 +41,10 @@ def realize(spec):
         return spec['json']
     r = random.Random(spec['seed'])
     if spec['kind'] == 'npy':
+        if r.random() < 0.12:
+            import numpy as np
+            # object arrays (ragged lists, strings mixed with None) are NumpyArrayCache values too (it loads with allow_pickle)
+            return np.array([r.choice([None, 'a', 1, 2.5, [1, 2], 'long string ' * r.randint(1, 3)]) for _ in range(r.randint(0, 5))] + [None], dtype=object)
         return V.gen_array(r, big=r.random() < 0.1)
     return V.gen_frame(r, big=r.random() < 0.1)
 
@@ -131,7 +135,7 @@ class CacheEngine(Engine):
                 if has_def and not kw:
                     seen_default = True
                 params.append({'name': n, 'kwonly': kw, 'default': {'v': r.choice([None, 0, 1, True, False, 'x', '', 2.0, [1], {'k': 1}])} if has_def else None})
-            ignore = [p['name'] for p in params if p['name'] == 'verbose' or r.random() < 0.1]
+            ignore = [p['name'] for p in params if (p['name'] == 'verbose' and r.random() < 0.6) or r.random() < 0.1]
             methods.append({'name': r.choice(['m', 'compute', 'load']) + str(mi), 'params': params, 'ignore': ignore,
                             'version': r.choice([None, None, 'v1', '2']), 'source': r.choice(['attr', 'attr', 'deco']),
                             'custom_key': False})
@@ -143,7 +147,7 @@ class CacheEngine(Engine):
         pools = {}
         for m in methods:
             for p in m['params']:
-                pools.setdefault(p['name'], [1, True, 1.0, 0, False, None, 'x', '1', [1, 2], {'k': [1]}, 2, 'y', 0.5, -1])
+                pools.setdefault(p['name'], [1, True, 1.0, 0, False, None, 'x', '1', [1, 2], {'k': [1], 'a': 2, 'z': {'q': 1, 'b': None}}, 2, 'y', 0.5, -1, {'b': 1, 'a': 2}])
         ops = []
         for _ in range(r.randint(3, 16)):
             if r.random() < 0.08:
@@ -169,6 +173,9 @@ class CacheEngine(Engine):
                     continue
                 kw.append([p['name'], binding[p['name']]])
             r.shuffle(kw)
+            # equal mappings built in another insertion order are the same argument value
+            pos = [_reorder(v, r) for v in pos]
+            kw = [[k_, _reorder(v, r)] for k_, v in kw]
             op = {'op': 'call', 'm': mi, 'pos': pos, 'kw': kw, 'binding': binding}
             t = r.random()
             if t < 0.12:
@@ -548,6 +555,16 @@ class CacheEngine(Engine):
                     c = copy.deepcopy(scn)
                     c['ops'][i]['val'] = {'json': 1}
                     yield c
+
+
+def _reorder(v, r):
+    if isinstance(v, dict):
+        items = [(k, _reorder(x, r)) for k, x in v.items()]
+        r.shuffle(items)
+        return dict(items)
+    if isinstance(v, list):
+        return [_reorder(x, r) for x in v]
+    return v
 
 
 _MISSING = object()
